@@ -258,7 +258,7 @@ impl<'a> Rewriter<'a> {
                         Some(syn::Stmt::Expr(e, None)) => {
                             p.used = true;
                             let r = rng(e);
-                            edits.push(Edit { range: r.start..r.start, text: "let __ret = ".to_string(), prio: -8 });
+                            edits.push(Edit { range: r.start..r.start, text: "let __ret = ".to_string(), prio: -4 });
                             edits.push(Edit { range: r.end..r.end, text: format!(";\nproof {{\n{}}}\n__ret", p.text), prio: 8 });
                             self.log.push("R7 tail expression bound to __ret".to_string());
                         }
@@ -593,6 +593,29 @@ impl<'ast, 'r, 'a> Visit<'ast> for Collector<'r, 'a> {
                 let v = self.render(&m.args[0]);
                 self.rw.log.push("R10 .entry(k).insert_entry(v) -> __map_insert_entry".to_string());
                 self.edits.push(Edit { range: rng(e), text: format!("__map_insert_entry(&mut {map}, {k}, {v})"), prio: 0 });
+            }
+            // R13: S.binary_search_by(|p| B)  ->  { let __bs_f = |p: T| -> (o: Ordering) ensures .. B; proof {..} __binary_search_by(S, __bs_f) }
+            // the closure is hoisted into a let (evaluated once, immediately before the call, as in
+            // the original) so that a proof block can talk about it; its typed header and its
+            // ensures clause come from the unit (`@loop R13#k`, `@closure_sig`, `@loop_ensures`)
+            syn::Expr::MethodCall(m) if m.method == "binary_search_by" && self.rw.on("R13") && m.args.len() == 1 => {
+                let cl = match &m.args[0] {
+                    syn::Expr::Closure(c) => c,
+                    _ => die("unsupported", &format!("{}: R13 side condition: argument of binary_search_by is not a closure", self.rw.fn_path)),
+                };
+                if cl.capture.is_some() || cl.inputs.len() != 1 {
+                    die("unsupported", &format!("{}: R13 side condition violated (move closure / several params)", self.rw.fn_path));
+                }
+                let key = self.rw.next_key("R13");
+                let sig = match self.rw.loops.iter().find(|l| l.key == key).and_then(|l| l.closure_sig.clone()) {
+                    Some(s) => s,
+                    None => die("malformed-unit", &format!("{}: R13 needs `@loop {key}` with a @closure_sig", self.rw.fn_path)),
+                };
+                let (_iter, hdr, bs, _be) = self.rw.loop_parts(&key);
+                let recv = self.render(&m.receiver);
+                let body = self.render(&cl.body);
+                self.rw.log.push(format!("R13 binary_search_by closure hoisted as {key}"));
+                self.edits.push(Edit { range: rng(e), text: format!("{{ let __bs_f = {sig}{hdr} {body}; {bs} __binary_search_by({recv}, __bs_f) }}"), prio: 0 });
             }
             // R12: M.entry(K).or_default().insert(V)  ->  __entry_or_default_insert(M, K, V)
             // side condition: M is a `&mut` binding (implicit reborrow; rustc rejects anything else)
